@@ -288,6 +288,9 @@ def obligations(tier: str, seed: int):
             a = bool((k + seed) % 2)
             N = 1 if op[0] == "resample" else (2 if (k % 3 == 0 or op[0] == "sample") else 1)
             obs.append((f"op-D{D}-{k:02d}-{op[0]}-N{N}-ac{int(a)}", ob_ops, dict(D=D, sizes=sz, N=N, a=a, ops=[op])))
+        for op in (("downsample", -1), ("upsample", -1)):  # negative levels: the other direction, both conventions
+            for a in (True, False):
+                obs.append((f"op-D{D}-{op[0]}-neg-ac{int(a)}", ob_ops, dict(D=D, sizes=sz, N=1, a=a, ops=[op])))
         for k, op in enumerate([("crop", num_a), ("pad", num_b, "replicate"), ("resize", tuple(m + 1 for m in sz)), ("center_pad", 8), ("sample",)]):
             obs.append((f"image-D{D}-{op[0]}", ob_ops, dict(D=D, sizes=sz, N=1, a=bool(k % 2), ops=[op], cls="image")))
         chains = [
